@@ -98,3 +98,14 @@ Definition wt_oracle_value_pos (c : wtcase) : bool :=
 Definition wt_succeeded (c : wtcase) : bool := match hc_result (wt_case c) with Some _ => true | None => false end.
 Definition wt_has_fold (c : wtcase) : bool :=
   match hc_result (wt_case c) with Some t => existsb (fun s => match s with SFold (_ :: _) => true | _ => false end) t | None => false end.
+
+(* running a call sequence with [step] of HandlerCases.v, keeping the handler (the run stops at the first error) *)
+Fixpoint exec_ops (ops : list hop) (h : hhandler) : option hhandler :=
+  match ops with
+  | [] => Some h
+  | o :: r => match step h o with (_, Some h') => exec_ops r h' | (_, None) => None end
+  end.
+Definition res_to_option {A} (r : res A) : option A := match r with Ok a => Some a | _ => None end.
+(* the flattening is faithful: the call sequence of a forest, run op by op, is [drive] *)
+Definition C10_ops_tie_stmt : Prop :=
+  forall ds h, exec_ops (ops_dts ds) h = res_to_option (drive string String.eqb ds h).
